@@ -157,11 +157,15 @@ fn main() {
             o.create_if_missing = true;
             let db = raindb::DB::open(o).expect("open");
             let mut live: Vec<(raindb::Snapshot, String)> = vec![];
+            let mut last_val = String::new();
             for (i, t) in a[1..].iter().enumerate() {
                 let (name, arg) = t.split_once(':').unwrap();
                 if name == "new" {
-                    let val = format!("v{}", i);
-                    db.put(WriteOptions::default(), b"key".to_vec(), val.clone().into_bytes()).unwrap();
+                    // "new:i:same" = a snapshot of the state the previous snapshot saw (no write in between)
+                    let same = arg.ends_with(":same") && !last_val.is_empty();
+                    let val = if same { last_val.clone() } else { format!("v{}", i) };
+                    if !same { db.put(WriteOptions::default(), b"key".to_vec(), val.clone().into_bytes()).unwrap(); }
+                    last_val = val.clone();
                     live.push((db.get_snapshot(), val));
                 } else {
                     let (snap, _) = live.remove(arg.parse::<usize>().unwrap());
